@@ -11,7 +11,7 @@ ID = 'C02'
 PROPS_FILE = 'theories/Props/C02.v'
 PROPS_MODULE = 'Props.C02'
 COQ_TARGETS = ['theories/Extract/ExtractSyntax.vo']
-REQUIRED_THEOREMS = []
+REQUIRED_THEOREMS = ['C02_roundtrip_simple_partial', 'C02_simple_is_wellformed', 'C02_layout_independent_simple_partial', 'C02_roundtrip_statement_refuted_by_D7']
 MODEL = 'syn'
 HARNESS_BINS = ['syn_run']
 ANCHORS = ['fluent-syntax/src/parser/core.rs', 'fluent-syntax/src/parser/pattern.rs', 'fluent-syntax/src/parser/expression.rs',
@@ -341,12 +341,21 @@ def nontrivial(case, out):
     return out if ('(msg ' in out or '(term ' in out) else None
 
 
+PARTIAL = ('the full round trip parse (render cs t) = t for ALL well-formed trees is stated (C02_roundtrip_statement) but proved only for the '
+           'fragment simple_resource (stand-alone comments; messages/terms whose value and attributes are one-line patterns of text and '
+           'placeables holding a variable/message/term reference or a number/string literal; ALL layouts). Selects, call arguments, '
+           'multi-line text, attached comments are covered by the spec-driven oracle only. The full statement is refuted on the current tree '
+           'by the known finding D7 (theorem C02_roundtrip_statement_refuted_by_D7).')
+
 MANIFEST = {
     'text': 'The Fluent grammar is formalised as a printer with layout choices (Render.v: render, wf_resource); the property is the '
-            'round trip parse (render cs t) = t for all well-formed t and all layouts cs. Props/C02.v states it in full and proves '
-            'the fragments listed there; the implementation is tested directly against the extracted formal spec on every run '
-            '(random trees x random layouts, systematic per-construct layouts).',
-    'note': 'Trusted: Render.v as our reading of the Fluent 1.0 EBNF (validated by tests only); parser model trusted base as C01.',
-    'technique': 'Rocq proof (print/parse round-trip lemmas over the parser model) + spec-driven differential testing with the extracted printer',
-    'design_ref': 'DESIGN.md §4 C02',
+            'round trip parse (render cs t) = t for all well-formed t and all layouts cs. PROVED in Rocq for the fragment '
+            'simple_resource under every layout (C02_roundtrip_simple_partial, layout independence as a corollary); for the rest of the '
+            'grammar (selects, call arguments, multi-line patterns, attached comments) the implementation is tested directly against the '
+            'extracted formal printer on every run (random trees x random layouts, systematic per-construct layouts), and the model '
+            'parser is tied to the real one by the correspondence check.',
+    'note': 'PARTIAL proof (fragment). Trusted: Render.v as our reading of the Fluent 1.0 EBNF (validated by tests only); parser model '
+            'trusted base as C01. Known finding D7 refutes the unrestricted statement (comment whose last line is empty at end of input).',
+    'technique': 'Rocq proof (print/parse round-trip lemmas over the parser model, fragment) + spec-driven differential testing with the extracted printer',
+    'design_ref': 'DESIGN.md §4 C02, §10',
 }
